@@ -8,6 +8,7 @@ import (
 	"fmt"
 	"net"
 	"net/http"
+	"net/http/httptrace"
 	"net/url"
 	"strings"
 	"sync"
@@ -48,6 +49,9 @@ type DialCell struct {
 	// session for the URL's host inside whatever the function returned - here
 	// that cannot succeed, so Dial fails and the backend sees no handshake.
 	HookTLS bool `json:"hook_tls,omitempty"`
+	// Traced: the dial goes through DialContext with an httptrace.ClientTrace
+	// (all hooks set) in the context; observing a dial changes nothing about it.
+	Traced bool `json:"traced,omitempty"`
 }
 
 var cellHosts = []string{"backend.test", "backend.test:8443", "b2.backend.test:80", "[2001:db8::1]", "[2001:db8::1]:9000", "10.1.2.3", "10.1.2.3:443", "localhost:8080", "backend.test:443", "backend.test:80"}
@@ -141,6 +145,7 @@ func genDialCell(t *rapid.T) DialCell {
 	if rapid.IntRange(0, 3).Draw(t, "host_header") == 0 {
 		c.HostHeader = rapid.SampledFrom([]string{"virtual.example", "other.test:8443", "backend.test"}).Draw(t, "host_header_v")
 	}
+	c.Traced = rapid.IntRange(0, 2).Draw(t, "traced") == 0
 	return c
 }
 
@@ -316,7 +321,19 @@ func checkC18(c DialCell, o *Obs) error {
 			nc, _ := mk("NewClient")(context.Background(), "tcp", withDefaultPort(host, map[bool]string{false: "80", true: "443"}[c.Secure]))
 			conn, _, err = websocket.NewClient(nc, u, hdr, 0, 0)
 		} else {
-			conn, _, err = d.Dial(scheme+"://"+host+"/path?q=1", hdr)
+			ctx := context.Background()
+			if c.Traced {
+				ctx = httptrace.WithClientTrace(ctx, &httptrace.ClientTrace{
+					GetConn:              func(string) {},
+					GotConn:              func(httptrace.GotConnInfo) {},
+					GotFirstResponseByte: func() {},
+					TLSHandshakeStart:    func() {},
+					TLSHandshakeDone:     func(tls.ConnectionState, error) {},
+					WroteHeaders:         func() {},
+					WroteRequest:         func(httptrace.WroteRequestInfo) {},
+				})
+			}
+			conn, _, err = d.DialContext(ctx, scheme+"://"+host+"/path?q=1", hdr)
 		}
 		if (conn == nil) == (err == nil) {
 			return fmt.Errorf("dial %d: Dial returned conn=%v err=%v", hi, conn != nil, err)
